@@ -225,9 +225,13 @@ def _cli(prog, chk, R):
         se = [c for c in g.calls(lambda e: e['k'] == 'mcall' and SX.short(e['callee']) == 'setEcho' and SX.show(e['obj']) == obj and SX.strip(SX.real_args(e)[0]).get('id') == names['echoAll']['id'])]
         chk.ob('R17.4', f, ex.ln, bool(se) and g.must_precede(se, ex), 'the echo decision is applied to the evaluator before it executes', key='echo-applied#%d' % i)
     # ---- R17.5 ---------------------------------------------------------------------------------
-    divs = [n for n in SX.walk(f.body, into_lambdas=False) if n['k'] == 'bin' and n['op'] == '/' and n.get('t') == 'double' and 'second' in SX.show(n['l'])]
-    chk.count('probability divisions in the CLI', len(divs), 1)
-    for n in divs:
+    # the printing code may live in runImpl or in a helper of the same file that runImpl reaches
+    hosts = [f] + [h for h in prog.reach([f]) if h is not f and h.body and h.file == f.file and h.kind != 'lambda']
+    divs_h = [(h, n) for h in hosts for n in SX.walk(h.body, into_lambdas=False)
+              if n['k'] == 'bin' and n['op'] == '/' and n.get('t') == 'double' and 'second' in SX.show(n['l'])]
+    chk.count('probability divisions in the CLI', len(divs_h), 1)
+    f_run = f
+    for f, n in divs_h:
         d = SX.strip(n['r'])
         while SX.is_node(d) and d['k'] == 'cast':
             d = d['e']
